@@ -16,6 +16,24 @@ def incoming_rw(m):
     return m.group(0)
 
 
+def spawn_rw(m):
+    # the closure given to thread::spawn is the body of a connection thread: inside it, `in_conn_thread__` says so
+    return "thread::spawn(Tracked(&mut spawned__), " + m.group(0)[len("thread::spawn("):] + " let ghost in_conn_thread__ = true;"
+
+
+def spawn_guard(m):
+    from rustlex import Undecided
+    raise Undecided("thread::spawn is given something else than a closure with a block body (the body of the connection thread cannot be told from the accept loop)")
+
+
+LOOP_START = "let ghost spawned0__ = spawned__.n; let ghost attempt__ = crate::vnet::is_connection(&stream);"
+LOOP_END = """proof {
+                // every connection the listener has accepted is handed to a thread of its own in this round (dropping it, or keeping
+                // it for later, leaves a peer without an answer for as long as other peers like)
+                assert(attempt__ ==> spawned__.n > spawned0__); //@C17.every_accepted_connection_gets_its_own_thread
+            }"""
+
+
 def build():
     u = Unit("tacd", "tacd")
     u.prelude("stdx", "tacd_shims")
@@ -26,7 +44,8 @@ def build():
     u.take(S, "ALPN_ERROR", "openssl_server")
     u.raw("openssl_server", "broadcast use crate::anyhow::axiom_from_origin;")
     u.macro(S, "listen_and_accept")
-    u.verify(S, "start", "openssl_server", props=["C17", "C16"], fns={"start": FnSpec(ret="r", try_explicit=True, sig="""
+    u.verify(S, "start", "openssl_server", props=["C17", "C16"], fns={"start": FnSpec(ret="r", try_explicit=True,
+        body_start="let ghost in_conn_thread__ = false; let tracked mut spawned__ = crate::vnet::Spawned::none();", sig="""
     ensures
         // whatever a client does to its own connection, the server goes on accepting: start never ends on an error of one connection
         r matches Err(e) ==> e.origin@ != 1, //@C17.a_connection_cannot_end_the_accept_loop
@@ -41,5 +60,11 @@ def build():
         # the listener's stream of connection attempts, possibly behind an iterator adapter: one that keeps every accepted
         # connection, or one that stops at the first failed accept (then the accept loop ends on an error of one connection)
         ("T-ITER", r"listener\.incoming\(\)(?P<ad>\s*\.\s*\w+\((?:[^()]|\([^()]*\))*\))?", incoming_rw, 2),
-    ], at=[("before_stmt_re", r"let \w+ = &listen_addr\[", 1, 'proof { reveal_strlit("unix:"); }')])})
+        # connection threads: the closure body is marked, every spawn is counted, and the (blocking) handshake says where it runs
+        ("T-THREAD", r"thread::spawn\((?:move )?\|\| \{", spawn_rw, None),
+        ("T-THREAD", r"thread::spawn\((?!(?:move )?\|\| \{)", spawn_guard, None),
+        ("T-THREAD", r"\.accept\((?P<a>[^()]*)\)", r".accept(\g<a>, Ghost(in_conn_thread__))", None),
+    ], at=[("before_stmt_re", r"let \w+ = &listen_addr\[", 1, 'proof { reveal_strlit("unix:"); }'),
+           ("loop_start", None, 1, LOOP_START), ("loop_end", None, 1, LOOP_END),
+           ("loop_start", None, 2, LOOP_START), ("loop_end", None, 2, LOOP_END)])})
     return u
